@@ -71,6 +71,17 @@ class C09(Prop):
             rag1 = (hdr,) + tuple(r if rng.random() < 0.5 else r[:rng.choice([1, max(1, w - 1)])] for r in rows)
             yield Case('reduce', ('mergeduplicates', False, bs, rag1, rng.choice([hdr[0], (hdr[0],)]),
                                   rng.choice([None, 'x', 'M'])))
+            # merge(t1, t2, key): tables with different headers and short rows; every row lands in the group of its own key
+            h2 = (hdr[0],) + tuple(rng.sample(['p', 'q'] + list(hdr[1:]), rng.choice([1, 2])))
+            t2 = (h2,) + tuple(tuple(rng.choice(alpha) if j == 0 else rng.choice([1, 2, 'x', None]) for j in range(len(h2)))
+                               for _ in range(rng.choice([0, 1, 2, 3])))
+            short = lambda tt: (tt[0],) + tuple(r if rng.random() < 0.6 else r[:rng.randint(1, len(r))] for r in tt[1:])   # noqa
+            # (missing stays None: merge hands `missing` to mergesort only, so any other marker is an ordinary value to the
+            #  mergeduplicates stage - behaviour as written, outside what C09 states)
+            yield Case('merge', (hdr[0], None, (short(t), short(t2))))
+            # zero-length rows belong to the group of the missing key (None): nothing is dropped
+            te = (hdr,) + tuple(r if rng.random() < 0.7 else () for r in rows) + ((),)
+            yield Case('counts', (hdr[0], bs, te))
             # rowgroupmap: the mapper sees each group once, groups in ascending key order, rows in table order, any buffersize
             yield Case('rgm', (rng.choice([hdr[0], (hdr[0], hdr[1]), hdr[1]]), rng.choice([None, 1, 2, 3]), t))
             # groupcountdistinctvalues: per key, the number of distinct values (judged on the implementation's output)
@@ -88,6 +99,10 @@ class C09(Prop):
                     return codec.t_bool(self._vcm(*case.arg[1:]))
                 if case.arg and case.arg[0] == 'rgm':
                     return codec.t_bool(self._rgm(*case.arg[1:]))
+                if case.arg and case.arg[0] == 'merge':
+                    return codec.t_bool(self._merge(*case.arg[1:]))
+                if case.arg and case.arg[0] == 'counts':
+                    return codec.t_bool(self._counts(*case.arg[1:]))
                 return codec.t_bool(self._gcdv(*case.arg))
             except Exception as e:   # noqa
                 return obs_exc(e)
@@ -137,8 +152,8 @@ class C09(Prop):
             return Case('const_true', case.arg, dict(case.meta, orig='gcdv'))
         if case.op == 'vcm':
             return Case('const_true', ('vcm',) + tuple(case.arg), dict(case.meta, orig='vcm'))
-        if case.op == 'rgm':
-            return Case('const_true', ('rgm',) + tuple(case.arg), dict(case.meta, orig='rgm'))
+        if case.op in ('rgm', 'merge', 'counts'):
+            return Case('const_true', (case.op,) + tuple(case.arg), dict(case.meta, orig=case.op))
         return case
 
     @staticmethod
@@ -184,6 +199,38 @@ class C09(Prop):
                 o.append(vals[0] if len(vals) == 1 else missing if not vals else ('!conflict',) + tuple(vals))
             out.append(tuple(o))
         return out
+
+    def _merge(self, key, missing, tabs):
+        import petl as etl
+        # the union table by field name: a short row simply lacks its last cells
+        fields = []
+        for t in tabs:
+            for f in t[0]:
+                if f not in fields:
+                    fields.append(f)
+        rows = []
+        for t in tabs:
+            for r in t[1:]:
+                rec = dict(zip(t[0], r))
+                rows.append(tuple(rec.get(f, missing) for f in fields))
+        want = self._md_expected((tuple(fields),) + tuple(rows), key, missing)
+        got = [tuple(r) for r in encode_conflicts(etl.merge(*[[list(r) for r in t] for t in tabs], key=key, missing=missing))]
+        norm = lambda rs: [tuple(('!conflict',) + tuple(sorted(x[1:], key=repr)) if isinstance(x, tuple) and x[:1] == ('!conflict',)   # noqa
+                                 else x for x in r) for r in rs]
+        return norm(got) == norm(want)
+
+    def _counts(self, key, bs, t):
+        """group sizes add up to the number of rows, for every grouping operator, also when some rows are empty"""
+        import petl as etl
+        n = len(t) - 1
+        src = lambda: [list(r) for r in t]   # noqa
+        kw = {} if bs is None else {'buffersize': bs}
+        a = sum(r[-1] for r in list(etl.aggregate(src(), key, len, **kw))[1:])
+        b = sum(r[-1] for r in list(etl.aggregate(src(), key, {'n': len}, **kw))[1:])
+        c = sum(r[-1] for r in list(etl.rowreduce(src(), key, lambda k, rows: [k, len(list(rows))], header=['k', 'n'], **kw))[1:])
+        d = sum(r[-1] for r in list(etl.rowgroupmap(src(), key, lambda k, rows: [[k, len(list(rows))]], header=['k', 'n'], **kw))[1:])
+        e = sum(len(list(g)) for _k, g in etl.rowgroupby(src(), key))
+        return (a, b, c, d, e) == (n, n, n, n, n)
 
     def _rgm(self, key, bs, t):
         import petl as etl
@@ -242,6 +289,13 @@ class C09(Prop):
                 if case.arg[0] == 'vcm':
                     _, field, missing, t = case.arg
                     return len(t) >= 1 and field in t[0] and len(set(t[0])) == len(t[0])
+                if case.arg[0] == 'merge':
+                    _, key, missing, tabs = case.arg
+                    return missing is None and len(tabs) >= 1 and all(len(t) >= 1 and key in t[0] and t[0][0] == key and len(set(t[0])) == len(t[0])
+                               and all(1 <= len(r) <= len(t[0]) for r in t[1:]) for t in tabs)
+                if case.arg[0] == 'counts':
+                    _, key, bs, t = case.arg
+                    return len(t) >= 1 and key in t[0] and all(len(r) in (0, len(t[0])) for r in t[1:])
                 if case.arg[0] == 'rgm':
                     _, key, bs, t = case.arg
                     ks = key if isinstance(key, tuple) else (key,)
@@ -302,7 +356,7 @@ class C09(Prop):
         return None
 
     def nontrivial(self, case):
-        if case.op in ('const_true', 'gcdv', 'rgm', 'vcm'):
+        if case.op in ('const_true', 'gcdv', 'rgm', 'vcm', 'merge', 'counts'):
             return len(case.arg[-1]) >= 3
         return len(case.arg[3]) >= 3
 
